@@ -172,6 +172,13 @@ def x1_x3(ctx):
                                 tv = sx.strip_ref(text)
                                 if sx.is_path(tv) and tv['p'] in ids and ids.index(tv['p']) < ids.index(origin['p']):
                                     enclosing_ok = src['f']['p']
+                st_o, _ = resolve_let(chain, stmts, i, origin['p'])
+                if st_o is not None:
+                    # re-bound by a `let` between the resolver call and the push: no longer the resolver's value
+                    enclosing_ok = False
+                st_t2, _ = resolve_let(chain, stmts, i, sx.strip_ref(text)['p']) if sx.is_path(sx.strip_ref(text)) else (None, None)
+                if st_t2 is not None:
+                    enclosing_ok = False
                 if not enclosing_ok:
                     r3.fail(key + ':origin-source', pp.where(call.get('l')),
                             '%s: pushes `%s` with origin variable `%s` that is not the (text, origin, ..) pair returned by the macro resolver' % (akey, sx.render(text), origin['p']))
@@ -432,6 +439,35 @@ def x5_x7(ctx):
         if sorted(sets) != sorted(['%s=true' % pp.skip_var, '%s=false' % pp.skip_var]):
             r7.fail('%s:skip-bookkeeping' % CRATE, pp.where(pp.loop_stmts[0].get('l')),
                     'before the guard `%s` must be set on Enter and cleared on Leave of a skip-listed node; found %s' % (pp.skip_var, sets))
+    # the skip list only grows: entries of an enclosing conditional must survive nested directives
+    sl_var = None
+    for st in pp.loop_fn['body']['stmts']:
+        if st['k'] == 'let' and 'init' in st and sx.is_call(st['init']) and st['init']['f']['p'].endswith('SkipNodes::new'):
+            sl_var = sx.pat_idents(st['pat'])[0]
+    r7.exactly('skip_list_variable', 1 if sl_var else 0, 1)
+    if sl_var:
+        uses = {}
+        for n in sx.walk(pp.loop_fn['body']):
+            if n.get('k') == 'mcall' and sx.is_path(n['recv'], sl_var):
+                uses[n['m']] = uses.get(n['m'], 0) + 1
+            if n.get('k') == 'assign' and sx.is_path(n['l_'], sl_var):
+                uses['<assign>'] = uses.get('<assign>', 0) + 1
+            if n.get('k') == 'field' and sx.is_path(n['e'], sl_var):
+                uses['<field .%s>' % n['m']] = uses.get('<field .%s>' % n['m'], 0) + 1
+        r7.inst('skip-list-uses', {'methods_called_on_the_skip_list': uses})
+        for mname in uses:
+            if mname not in ('push', 'contains'):
+                r7.fail('%s:skip-list-shrinks:%s' % (CRATE, mname), pp.where(pp.loop_fn['l']),
+                        'the skip list is modified with `%s` inside the event loop: entries put there by an enclosing `ifdef chain (its dead '
+                        '`elsif/`else branches) can disappear when a nested directive is left, so discarded branches become active' % mname)
+        # the SkipNodes type itself: push appends, contains only reads
+        for (ty, name), m_ in pp.methods.items():
+            if ty.startswith('SkipNodes'):
+                muts = [n['m'] for n in sx.walk(m_['body']) if n.get('k') == 'mcall' and n['m'] in
+                        ('clear', 'pop', 'remove', 'truncate', 'retain', 'drain', 'swap_remove', 'dedup', 'sort', 'reverse')]
+                r7.inst('skipnodes-method:' + name, {'method': name, 'shrinking_operations': muts})
+                if muts and name in uses:
+                    r7.fail('%s:skip-list-shrinks:%s' % (CRATE, name), pp.where(m_['l']), 'SkipNodes::%s removes or reorders entries (%s)' % (name, muts))
     return [r5, r6, r7]
 
 
